@@ -250,8 +250,11 @@ req0_pipe_close(void *arg)
 	while ((ctx = nni_list_first(&p->contexts)) != NULL) {
 		nni_list_remove(&p->contexts, ctx);
 		nng_aio *aio;
-		if (ctx->retry <= 0) {
-			// If we can't retry, then just cancel the operation
+		if ((ctx->retry <= 0) ||
+		    ((ctx->req_msg != NULL) && (!ctx->req_owned))) {
+			// If we can't retry (also: no copy of the request was
+			// kept, because retries were disabled when it was
+			// sent), then just cancel the operation
 			// altogether.  We should only be waiting for recv,
 			// because we will already have sent if we are here.
 			if ((aio = ctx->recv_aio) != NULL) {
@@ -419,6 +422,12 @@ req0_retry_cb(void *arg)
 
 	NNI_LIST_FOREACH (&s->retry_queue, ctx) {
 		if (ctx->retry_time > now || (ctx->req_msg == NULL)) {
+			continue;
+		}
+		if ((!ctx->req_owned) &&
+		    (!nni_list_node_active(&ctx->send_node))) {
+			// Sent while retries were disabled: the message went
+			// with the pipe, there is nothing to send again.
 			continue;
 		}
 		if (!nni_list_node_active(&ctx->send_node)) {
